@@ -139,4 +139,44 @@ func driveBaseMul(c *ctx) {
 			}
 		}
 	}
+	// the generator multiply INSIDE the double multiply u1*G + u2*P: the variable part is chosen so that, whichever end the windows of
+	// u1 are accumulated from, the running value (u2*P plus the windows taken so far) EQUALS the table entry about to be added, or is
+	// its negative — the addition that joins them must be the complete one.  Every byte position.
+	for pos := 0; pos < 32; pos++ {
+		for rep := 0; rep < c.scale(2, 8); rep++ {
+			u1 := randBig(r, bigN)
+			if rep == 0 {
+				u1 = new(big.Int).Lsh(big.NewInt(int64(1+r.Intn(255))), uint(8*pos)) // a single non-zero window
+			}
+			if pos == 31 {
+				u1.Mod(u1, new(big.Int).Lsh(big.NewInt(int64(1+r.Intn(255))), 248)) // keep u1 below n
+			}
+			w := new(big.Int).And(new(big.Int).Rsh(u1, uint(8*pos)), big.NewInt(0xff))
+			if w.Sign() == 0 {
+				continue
+			}
+			entry := new(big.Int).Lsh(w, uint(8*pos))
+			hi := new(big.Int).Lsh(new(big.Int).Rsh(u1, uint(8*pos+8)), uint(8*pos+8)) // the windows above pos
+			lo := new(big.Int).Mod(u1, new(big.Int).Lsh(big.NewInt(1), uint(8*pos)))    // the windows below pos
+			for _, partial := range []*big.Int{hi, lo} {
+				for _, sign := range []int64{1, -1} {
+					// u2*P + partial = sign * entry
+					k := new(big.Int).Mod(new(big.Int).Sub(new(big.Int).Mul(big.NewInt(sign), entry), partial), bigN)
+					if k.Sign() == 0 {
+						continue
+					}
+					u2 := big.NewInt(1)
+					kp := k
+					if rep%2 == 1 { // ... with a non-trivial u2
+						u2 = add(randBig(r, add(bigN, -1)), 1)
+						kp = new(big.Int).Mod(new(big.Int).Mul(k, new(big.Int).ModInverse(u2, bigN)), bigN)
+					}
+					p := mulG(kp)
+					v := secp256k1.NewIdentityPoint().DoubleScalarMultBasepointVartime(scFrom(u1), scFrom(u2), p)
+					c.E("dsm", "alias", "none", "u1", h32(u1), "u2", h32(u2), "p", ptRaw(p), "out", ptRaw(v), "p_post", ptRaw(p), "window", pos)
+				}
+			}
+		}
+	}
+
 }
